@@ -22,19 +22,27 @@ CLAIMS = {
          "small real half-lock and registry scenarios (reader parked between count and pointer, delivery nested on the "
          "mutating thread) is executed under the scheduler and validated by TLC against HalfLockAbs / "
          "TraceRegistryAbs (free only when unheld, by a non-handler frame; action released once by the remover; "
-         "no run after removal returned)",
+         "no run after removal returned); an inductive invariant of the SC reading (HalfLockSC.tla) is re-checked by "
+         "Apalache with the extracted read order / barrier shape (NoUseAfterFree for unboundedly many stores and steps); a "
+         "delivery stalled in real time inside an earlier action while another thread removes a later one (probe stall); a "
+         "real delivery at every instruction boundary of unregister / unregister_signal / drop (probe step)",
          "7.C01", "TLA+ fine model + parameter extraction + exhaustive schedule enumeration of real code + TLC trace validation"),
  "C02": ("model_checking",
          "every preemption-bounded schedule of deliveries against register/unregister/unregister_signal on the real "
          "registry, validated by TLC against the delivery monitor of TraceRegistryAbs.tla (must-run / may-run sets "
-         "from call/return order, each once, id order, own signal only)",
+         "from call/return order, each once, id order, own signal only); plus the stalled-delivery probe (TraceStall.tla) "
+         "and a real delivery at every instruction boundary of register / unregister / drop (TraceStep.tla: every "
+         "registered action exactly once, the operation takes effect)",
          "7.C02", "exhaustive schedule enumeration of real code + TLC trace validation against property-level TLA+ monitor"),
  "C03": ("model_checking",
          "a delivery is injected, un-preempted, at every scheduling point of register/unregister/unregister_signal "
          "on the same thread and run on another thread at every boundary; its own shim steps, lock/yield/spin use and "
          "allocator traffic are logged and TLC validates them against V_C03 (no lock, no hint, no alloc/free, steps <= "
-         "8 + #actions); the fine half-lock model checks that a reader frame is always enabled",
-         "7.C03", "freeze-at-every-boundary exploration of real code + TLC trace validation; ENABLED invariant on the fine model"),
+         "8 + #actions); the fine half-lock model checks that a reader frame is always enabled; on x86-64 nine library "
+         "operations run under the trap flag and a forked copy of the process takes a kernel-delivered signal (all "
+         "built-in actions registered) at EVERY instruction boundary (about 46 000): the delivery must return (watchdog), "
+         "make no allocator call, and do its job (TraceStep.tla)",
+         "7.C03", "freeze-at-every-boundary exploration of real code + real deliveries at every instruction boundary + TLC trace validation; ENABLED invariant on the fine model"),
  "C04": ("model_checking",
          "foreign plain/siginfo handlers (with and without SA_RESTART|SA_NODEFER), ignore and default are installed, "
          "then first registrations run under the scheduler with deliveries injected from the instant the kernel "
@@ -45,7 +53,9 @@ CLAIMS = {
  "C05": ("model_checking",
          "sequential and concurrent histories over register/unregister(live|stale)/unregister_signal/deliver on the "
          "real registry; TLC validates results, id uniqueness and the registry's final content per signal against the "
-         "multiset model in TraceRegistryAbs.tla (V_C05)",
+         "multiset model in TraceRegistryAbs.tla (V_C05); histories in a fresh forked process (RegistrySeq.tla) incl. "
+         "foreign one-shot / NODEFER handlers installed before the take-over and a query of who handles the signal (and "
+         "with which flags) after deliveries and removals",
          "7.C05", "history enumeration on real code + TLC trace validation against sequential TLA+ model"),
  "C06": ("model_checking",
          "TLC exhausts Channel.tla (bit-exact queue words, weak memory, nested sends, spurious weak-CAS failures) with "
@@ -112,8 +122,9 @@ CLAIMS = {
          "TLC explores Flag.tla for every arm/disarm/deliver history up to length 6 (thorough 8) in the four registration "
          "orders; forked probes execute histories with exit statuses and termination signals, an atexit marker tells "
          "_exit from exit; TLC validates status, marker and the flag values after every surviving delivery against "
-         "FlagOps.Run",
-         "7.C15", "TLA+ model of histories + history probes of real code + TLC trace validation"),
+         "FlagOps.Run; FlagSB.tla (over Mem.tla) states which store-buffering outcome the SeqCst accesses of the actions "
+         "forbid and a timed litmus looks for it on the real actions (thousands of forked children)",
+         "7.C15", "TLA+ model of histories + weak-memory TLA+ model + history probes and litmus on real code + TLC trace validation"),
  "C16": ("model_checking",
          "paired forked probes per signal number (own non-orphaned process group, no core dumps): the kernel's default "
          "action vs emulate_default_handler from normal context, with the signal masked, and from inside the signal's "
@@ -129,7 +140,9 @@ CLAIMS = {
          "TLC deadlock check and liveness (Termination, WriterProgress under weak fairness) on HalfLock.tla with the "
          "extracted constants; on real code every explored schedule must end with all threads done: deadlock "
          "(no runnable thread), livelock (a spinning writer that nobody can release) and a mutator wedged by an earlier "
-         "panic (forbidden signal, panicking destructor while the writer mutex is held) are events that violate V_C18",
+         "panic (forbidden signal, panicking destructor while the writer mutex is held) are events that violate V_C18; a "
+         "fair adversary (chain scenarios, one and two mutators) keeps a read section open at every instant and a "
+         "recurring state in which no mutator ever loads a zero counter is reported as a lasso",
          "7.C18", "TLA+ liveness/deadlock checking + exhaustive schedules of real code + TLC trace validation"),
 }
 
